@@ -4,7 +4,7 @@ use crate::infra::td::*;
 use crate::infra::*;
 use serde_json::json;
 
-pub const RULE: &str = "digests over 4 scale functions x delta in {1.1,2,5,10,20,50,100,300,1000} x backlog in {0,1,10,1000} x 13 data families (7 smooth incl. sorted/reverse/sawtooth orders, 6 with heavy ties or density cliffs), reads interleaved at random positions, zeros fed as -0.0 in every other block of items; at checkpoints n in {1,2,10,100,...}: n_centroids <= delta+3, and for a grid of ~1200 q and ~700 x the rank error of quantile(q) / cdf(x) against the exact empirical CDF of all inserted values must be <= c*W + 2/n (c=1 smooth, 3 ties/cliffs, 15% guard band). plus six very long sorted streams (6x10^7 quick, 3x10^8 thorough inserts, backlog 10^5) whose empirical CDF is known analytically: centroid bound and quantile accuracy at n = 10^6, 4x10^6, ... ; non-trivial = digest that performed >= 1 fuse and was checked at n >= 100; distinct = (scale, delta, backlog, family, seed) tuples";
+pub const RULE: &str = "digests over 4 scale functions x delta in {1.1,2,5,10,20,50,100,300,1000} x backlog in {0,1,10,1000} x 13 data families (7 smooth incl. sorted/reverse/sawtooth orders, 6 with heavy ties or density cliffs), reads interleaved at random positions, zeros fed as -0.0 in every other block of items, every fourth block on a digest reused after 20000 inserts and clear(); at checkpoints n in {1,2,10,100,...}: n_centroids <= delta+3, and for a grid of ~1200 q and ~700 x the rank error of quantile(q) / cdf(x) against the exact empirical CDF of all inserted values must be <= c*W + 2/n (c=1 smooth, 3 ties/cliffs, 15% guard band). plus six very long sorted streams (6x10^7 quick, 3x10^8 thorough inserts, backlog 10^5) whose empirical CDF is known analytically: centroid bound and quantile accuracy at n = 10^6, 4x10^6, ... ; non-trivial = digest that performed >= 1 fuse and was checked at n >= 100; distinct = (scale, delta, backlog, family, seed) tuples";
 pub const ASSUMPTIONS: &[&str] = &[
     "value tolerance tau = max(1e-9 * data range, n * eps * max|x|) when locating quantile(q) in the empirical CDF (a centroid mean is sum/count of a plain running f64 sum and carries its accumulation error)",
     "K2/K3 accuracy is only checked for n >= delta, as stated",
@@ -165,9 +165,25 @@ fn item(ctx: &Ctx, i: usize, rep: &mut Report) {
     // rank accuracy does not depend on the unit or origin of the data: epoch milliseconds (1.7e12 +
     // x), joules (x * 1e-19), ...
     let (scale, offset) = *r.pick(&[(1.0, 0.0), (1.0, 0.0), (1e-19, 0.0), (1e9, 0.0), (1e4, 1.7e12), (1e-3, -30.0), (1e12, 0.0)]);
-    let label = format!("tdigest({},delta={},backlog={},{},x*{:e}+{:e})", sf.name(), delta, backlog, fam.name(), scale, offset);
+    let reused = (i / 5) % 4 == 3;
+    let label = format!("tdigest({},delta={},backlog={},{},x*{:e}+{:e}{})", sf.name(), delta, backlog, fam.name(), scale, offset, if reused { ",reused after clear()" } else { "" });
     rep.config(&label);
     let mut t = make_td(sf, delta, backlog);
+    // every fourth block of five items runs on a *reused* digest: 20 000 values of the same family, then
+    // clear() - the bounds are about the inserts since then (seventh round: a running total that clear()
+    // forgets to reset over-compresses the next, smaller batch)
+    if reused {
+        let pre = guarded(|| {
+            for k in 0..20_000 {
+                t.insert(fam.gen(&mut r, k, 20_000) * scale + offset);
+            }
+            t.clear();
+        });
+        if let Err(msg) = pre {
+            rep.violation(format!("C04/panic/{}/{}", panic_class(&msg), sf.name()), format!("{}: panicked while filling and clearing the digest: {}", label, msg), json!({"scale": sf, "delta": delta, "backlog": backlog, "family": fam.name(), "item": i}));
+            return;
+        }
+    }
     let mut vals: Vec<f64> = Vec::with_capacity(n_max);
     let mut worst = Worst { q_err_over_w: 0.0, cdf_err_over_w: 0.0 };
     let mut checkpoints: Vec<usize> = vec![1, 2, 10];
